@@ -303,8 +303,14 @@ func c13Crypt(c *Ctx, crypt, up, down *ssa.Function) {
 			return true
 		})
 		_ = addOut
-		if len(seq) != 3 || seq[0] != "up" || seq[1] != "add" || seq[2] != "down" || downAt < addAt {
-			fs.add("arms", fmt.Sprintf("one block of crypt is processed as %v (up, keystream addition, down required on both arms)", seq), p.Exit(), p)
+		okSeq := len(seq) > 0 && len(seq)%3 == 0
+		for k := 0; okSeq && k+2 < len(seq); k += 3 {
+			if seq[k] != "up" || seq[k+1] != "add" || seq[k+2] != "down" {
+				okSeq = false
+			}
+		}
+		if !okSeq || downAt < addAt {
+			fs.add("arms", fmt.Sprintf("the blocks of crypt are processed as %v (up, keystream addition, down required for every block on both arms)", seq), p.Exit(), p)
 		}
 		if dec {
 			nDec++
